@@ -7,3 +7,4 @@ pub mod c08;
 pub mod c15;
 pub mod c16;
 pub mod c17;
+pub mod c19;
